@@ -196,10 +196,10 @@ macro_rules! raw_harness {
 
 raw_harness!(c18_receive_raw_end_session, 21, [3], decode_response,
     [RESP_POSTCARD_ERR, RESP_DECODED_CONTROL],
-    [1 2 3 4 5 6 7 8 9 10 11 12 13 14 15 16 17 18 19 20 21 22 23 24]);
+    [1 2 3 11 19 20 21]);
 raw_harness!(c18_receive_raw_sync_end, 24, [1], decode_response,
     [RESP_POSTCARD_ERR, RESP_DECODED_CONTROL],
-    [1 2 3 4 5 6 7 8 9 10 11 12 13 14 15 16 17 18 19 20 21 22 23 24]);
+    [1 2 3 4 13 23 24]);
 
 #[kani::proof]
 #[kani::unwind(8)]
